@@ -79,12 +79,22 @@ func obligationQuery(o *Obligation) (string, string) {
 				terms = append(terms, t)
 			}
 		}
-		sort.Strings(terms)
-		if len(terms) > 8 {
-			terms = terms[:8]
+		// goal skolems first, then the shortest index terms
+		sort.Slice(terms, func(i, j int) bool {
+			si, sj := strings.HasPrefix(terms[i], "|sk!"), strings.HasPrefix(terms[j], "|sk!")
+			if si != sj {
+				return si
+			}
+			if len(terms[i]) != len(terms[j]) {
+				return len(terms[i]) < len(terms[j])
+			}
+			return terms[i] < terms[j]
+		})
+		if len(terms) > 10 {
+			terms = terms[:10]
 		}
 		if len(terms) > 0 {
-			budget := 160
+			budget := 240
 			for _, a := range o.Gen.S.asserts {
 				if !strings.Contains(a, "(forall ((|q!") && !strings.Contains(a, "(forall ((j Int))") {
 					continue
@@ -179,7 +189,21 @@ func SolveGen(g *Gen, opts SolveOpts, stats *SolverStats) {
 	wg.Wait()
 }
 
+// raceOne races the solvers on one obligation; an undecided result is retried once with another seed and a
+// longer limit before it is reported (slow or unlucky queries must not become alarms).
 func raceOne(o *Obligation, prefix, file string, opts SolveOpts, stats *SolverStats) {
+	raceOnce(o, prefix, file, opts, stats)
+	if o.Status == "undecided" {
+		first := o.Output
+		o2 := opts
+		o2.Seed = opts.Seed + 7919
+		o2.RaceMs = opts.RaceMs * 3
+		raceOnce(o, prefix, file, o2, stats)
+		o.Output = first + " | retry: " + o.Output
+	}
+}
+
+func raceOnce(o *Obligation, prefix, file string, opts SolveOpts, stats *SolverStats) {
 	d, qa := obligationQuery(o)
 	q := prefix + fmt.Sprintf("%s\n(assert %s)\n(check-sat)\n(get-model)\n", d, qa)
 	os.WriteFile(file, []byte(q), 0o644)
